@@ -255,7 +255,8 @@ def run(ctx):
             traces.append({"id": len(traces) + 1, "kind": "geometry", "cs": DUMMY, "obs": [], "name": g["name"], "bonddev": g["bonddev"],
                            "bondallow": g["bondallow"], "angledev": g["angledev"], "angleallow": g["angleallow"], "attached": g["attached"],
                            "mindist": g["mindist"], "what": f"{what}: {g['res']} {g['name']} ({g['note']})", "job": jn})
-            ctx.nontrivial.add(traces[-1]["what"])
+            if g["note"].count("-") >= 2:        # an angle to another neighbour of the parent was measured
+                ctx.nontrivial.add(traces[-1]["what"])
     ctx.extra.update(runs=len(jobs), path_cases=sum(1 for t in traces if t["kind"] == "paths"),
                      geometry_records=sum(1 for t in traces if t["kind"] == "geometry"))
     tf = core.write_json(os.path.join(ctx.work, "tr.json"), [{k: v for k, v in t.items() if k not in ("what", "job")} for t in traces])
